@@ -27,7 +27,13 @@ func SchedTemplates(sym bool) (init []Call, templ []Call) {
 	wf2.Data, wf2.Perm = []int{2}, 0o644
 	md := mk("mkdir", ap("d"))
 	md.Perm = 0o755
-	init = []Call{wf, md, wf2}
+	// a second hard link of /w/d/a and an empty directory: a name taken over by a multiply linked file, or by a
+	// directory moved onto an empty one, shows in link counts and lost content when a call acts on a stale node
+	ln := mk("link", ap("d", "a"))
+	ln.Q = ap("d", "l")
+	me := mk("mkdir", ap("e"))
+	me.Perm = 0o755
+	init = []Call{wf, md, wf2, ln, me}
 
 	with := func(c Call, f func(*Call)) Call { f(&c); return c }
 	excl := []string{"RDWR", "CREATE", "EXCL"}
@@ -43,6 +49,7 @@ func SchedTemplates(sym bool) (init []Call, templ []Call) {
 		mk("remove", ap("a")),
 		mk("remove", ap("d", "a")),
 		mk("remove", ap("d")),
+		mk("remove", ap("e")),
 		mk("removeall", ap("d")),
 		with(mk("rename", ap("a")), func(c *Call) { c.Q = ap("b") }),
 		with(mk("rename", ap("a")), func(c *Call) { c.Q = ap("d", "b") }),
